@@ -311,6 +311,15 @@ def cacher_history(idx, stdlib, headers, between=None, recount_headers=None, ext
     h["COUNTED.dump"] = lambda i, c, r, a, k: '{"n": 1}'
     h["COUNTED.copy"] = lambda i, c, r, a, k: Obj("COPY_OF_COUNTED")
     h["self.cache._cachedir"] = lambda i, c, r, a, k: "CACHE"
+
+    def cp(i, c, r, a, k):
+        # copy.copy / copy.deepcopy of a monitor is a copy of it, like its own copy()
+        if a and isinstance(a[0], Obj) and a[0].name in ("COUNTED", "LM_LOADED"):
+            return Obj("COPY_OF_COUNTED" if a[0].name == "COUNTED" else "COPY_OF_LOADED")
+        return Residual(f"copy({a[0] if a else ''})")
+
+    h["copy.copy"] = cp
+    h["copy.deepcopy"] = cp
     h.update(extra(fs, state) if extra else {})
     fa = idx.method("FileCacher", "get_original_headers")
     fm = idx.method("FileCacher", "get_new_line_monitor")
